@@ -23,14 +23,7 @@ func fmtGomod() *format {
 	f := &format{
 		id:   "gomod",
 		path: "go.mod",
-		pool: []rec{
-			{Name: "github.com/BurntSushi/toml", Version: "v1.3.2", Tag: "plain"},
-			{Name: "gopkg.in/yaml.v3", Version: "v3.0.1", Tag: "gopkg-in"},
-			{Name: "example.com/m/v2", Version: "v2.0.0-rc.1", Tag: "major-suffix-prerelease"},
-			{Name: "golang.org/x/sys", Version: "v0.0.0-20220715151400-c0bba94af5f8", Tag: "pseudo-version"},
-			{Name: "github.com/docker/cli", Version: "v25.0.3+incompatible", Tag: "incompatible"},
-			{Name: "github.com/docker/cli2", Version: "v5.0.3+incompatible", Tag: "name+version-concat-equals-incompatible"},
-		},
+		pool: gomodPool(),
 		dims: []dim{
 			{name: "eol", labels: eolLabels},
 			{name: "trail", labels: trailLabels},
@@ -170,4 +163,15 @@ func fmtGomod() *format {
 		return genOut{file: finish(lines, eolOf(l.get("eol")), l.get("trail")), truth: truth}
 	}
 	return f
+}
+
+func gomodPool() []rec {
+	return []rec{
+		{Name: "github.com/BurntSushi/toml", Version: "v1.3.2", Tag: "plain"},
+		{Name: "gopkg.in/yaml.v3", Version: "v3.0.1", Tag: "gopkg-in"},
+		{Name: "example.com/m/v2", Version: "v2.0.0-rc.1", Tag: "major-suffix-prerelease"},
+		{Name: "golang.org/x/sys", Version: "v0.0.0-20220715151400-c0bba94af5f8", Tag: "pseudo-version"},
+		{Name: "github.com/docker/cli", Version: "v25.0.3+incompatible", Tag: "incompatible"},
+		{Name: "github.com/docker/cli2", Version: "v5.0.3+incompatible", Tag: "name+version-concat-equals-incompatible"},
+	}
 }
